@@ -11,4 +11,5 @@ def units(tier):
     u = [dict(kind="xlift", mechanism="xlift modular (B): real pdist_calc against the callee contract, symbolic probabilities", name="xlift:pdist_calc", module="vf.tasks.t_fock", func="unit", args=dict(which="pdist"))]
     for l in [x for x in circuit_labels(tier) if x != 'U3[late-herald]']:
         u.append(dict(kind="xlift", mechanism="xlift bounded (C), exact", name=f"xlift:sampler[{l}]", module="vf.tasks.t_fock", func="unit", args=dict(which="sampler", label=l)))
+    u.append(dict(kind="func", mechanism="bounded runtime contract (C), native machine integers", name="bounded:large-occupations", module="vf.tasks.t_fock", func="unit_bigint", args={}))
     return u
